@@ -28,6 +28,9 @@ const (
 	stateAdded queuedState = iota
 	stateFetching
 	stateFetched
+	// stateFailed marks a hash whose fetch was given up (cancelled, timed out or failed):
+	// the next Load request, whatever it asks for, tries it again
+	stateFailed
 )
 
 type replicator struct {
@@ -169,6 +172,29 @@ func (r *replicator) Load(ctx context.Context, entries []ipfslog.Entry) {
 
 	// process and wait the whole queue to complete
 	r.muProcess.Lock()
+
+	// what an earlier, aborted request left unfetched belongs to the ancestry of entries
+	// that may already be in the log, and would never be asked for again otherwise
+	for hash, state := range r.tasks {
+		if state != stateFailed {
+			continue
+		}
+
+		delete(r.tasks, hash)
+		if exist := r.AddHashToQueue(hash); exist {
+			continue
+		}
+
+		wg.Add(1)
+		go func() {
+			if err := r.processOne(ctx, &wg); err != nil {
+				r.logger.Warn("unable to process entry", zap.Error(err))
+			}
+
+			wg.Done()
+		}()
+	}
+
 	for i, entry := range entries {
 		if exist := r.AddEntryToQueue(entry); exist {
 			continue
@@ -201,11 +227,19 @@ func (r *replicator) processOne(ctx context.Context, wg *sync.WaitGroup) error {
 	// wait for a process slot
 	e, err := r.waitForProcessSlot(ctx)
 	if err != nil {
+		// every worker stands for one queued item: a worker that gives up before
+		// taking one must take it off the queue, or the replicator never gets idle again
+		r.abandonQueuedItem()
 		return err
 	}
 
 	if err := r.processItems(ctx, wg, e); err != nil {
 		r.logger.Warn("process item ended", zap.Error(err))
+
+		verifhook.Point("replicator.before-done", r)
+		// not fetched: the next request will ask for it again
+		r.processEntryFailed(e)
+		return nil
 	}
 
 	verifhook.Point("replicator.before-done", r)
@@ -284,6 +318,17 @@ func (r *replicator) processHash(ctx context.Context, item processItem) ([]cid.C
 
 	if err != nil {
 		return nil, fmt.Errorf("unable to fetch log: %w", err)
+	}
+
+	// a fetch that failed or was cancelled yields an empty log and no error
+	if l.Len() == 0 {
+		if _, inLog := r.store.OpLog().Get(hash); !inLog {
+			if ctx.Err() != nil {
+				return nil, fmt.Errorf("unable to fetch entry %s: %w", hash.String(), ctx.Err())
+			}
+
+			return nil, fmt.Errorf("unable to fetch entry %s", hash.String())
+		}
 	}
 
 	// the fetched entries are wrapped in a log that carries this store's id whatever they
@@ -365,6 +410,40 @@ func (r *replicator) processEntryDone(item processItem) {
 	r.muProcess.Unlock()
 }
 
+// processEntryFailed releases the slot of an item that could not be fetched
+func (r *replicator) processEntryFailed(item processItem) {
+	r.muProcess.Lock()
+
+	r.taskInProgress--
+
+	r.tasks[item.GetHash()] = stateFailed
+
+	if r.isIdle() {
+		r.idle()
+	}
+
+	r.sem.Release(1)
+
+	r.muProcess.Unlock()
+}
+
+// abandonQueuedItem takes one item off the queue on behalf of a worker that gave up before
+// getting a process slot; the next request will ask for it again
+func (r *replicator) abandonQueuedItem() {
+	r.muProcess.Lock()
+
+	if r.queue.Len() > 0 {
+		item := r.queue.Next()
+		r.tasks[item.GetHash()] = stateFailed
+	}
+
+	if r.isIdle() {
+		r.idle()
+	}
+
+	r.muProcess.Unlock()
+}
+
 func (r *replicator) shouldExclude(hash cid.Cid) (exist bool) {
 	r.muProcess.RLock()
 	defer r.muProcess.RUnlock()
@@ -383,8 +462,8 @@ func (r *replicator) shouldExclude(hash cid.Cid) (exist bool) {
 // AddHashToQueue is not thread safe
 func (r *replicator) AddHashToQueue(hash cid.Cid) (exist bool) {
 	_, inLog := r.store.OpLog().Get(hash)
-	_, queued := r.tasks[hash]
-	if exist = queued || inLog; exist {
+	state, queued := r.tasks[hash]
+	if exist = (queued && state != stateFailed) || inLog; exist {
 		return
 	}
 
@@ -398,8 +477,8 @@ func (r *replicator) AddHashToQueue(hash cid.Cid) (exist bool) {
 func (r *replicator) AddEntryToQueue(entry iface.IPFSLogEntry) (exist bool) {
 	hash := entry.GetHash()
 	_, inLog := r.store.OpLog().Get(hash)
-	_, queued := r.tasks[hash]
-	if exist = queued || inLog; exist {
+	state, queued := r.tasks[hash]
+	if exist = (queued && state != stateFailed) || inLog; exist {
 		return
 	}
 
